@@ -9,14 +9,25 @@
 (*   PGasFigure    max(floor(wanted x multiplier), used)                   *)
 (*   CalcOK        one evaluation of the base-fee function is admissible   *)
 (*   StepOK        one step of a block sequence is admissible              *)
+(*   SeqOK         history level: the base fee of a block is the function  *)
+(*                 of the base fee and the gas figure RECORDED for the     *)
+(*                 previous block (ghost gh), whatever node operation      *)
+(*                 (commit, restart on the same database, export of the    *)
+(*                 genesis and re-initialisation from it) happened between *)
+(*                 the two blocks                                          *)
 (*   Bound_*, MonotoneOn   bounds / monotonicity in g (theorems of the     *)
 (*                 definition on the stated domain, also evaluated on      *)
 (*                 real outputs)                                           *)
 (* As-built machine M: structured like x/feemarket/keeper/{eip1559,abci}.go*)
 (*   and app/ante/evm/fee_market.go: CodeCalc (nil / value / panic),       *)
 (*   MResult for BeginBlock, AnteGasWanted, EndBlock, Commit, SetParams,   *)
-(*   SetMaxGas; Init / Next for block sequences; CalcInit / CalcNext for   *)
-(*   the pure input grid.                                                  *)
+(*   SetMaxGas and the node operations between blocks: Restart (new        *)
+(*   application object on the same database), Reinit (x/feemarket         *)
+(*   ExportGenesis -> InitGenesis), ExportImport (ExportAppStateAndVali-   *)
+(*   dators -> InitChain on a fresh application), both either in the ABCI  *)
+(*   order (InitChain, BeginBlock, no Commit in between: phase "imported") *)
+(*   or with a Commit after InitChain; Init / Next for block sequences;    *)
+(*   CalcInit / CalcNext for the pure input grid.                          *)
 (*                                                                         *)
 (* All quantities that can exceed 31 bits are decimal strings (BigNum).    *)
 (* Decimals (min gas price, min gas multiplier) are 18-digit fixed point:  *)
@@ -27,7 +38,8 @@
 (*   bgw      block gas wanted = gas figure of the last ended block        *)
 (*   tgw      transient gas wanted of the running block                    *)
 (*   height   height of the running / last block                           *)
-(*   phase    "idle" | "open" | "ended"   (harness control state)          *)
+(*   phase    "idle" | "imported" | "open" | "ended" (harness control      *)
+(*            state; "imported": genesis initialised but not committed)    *)
 (*   maxGas   consensus max gas in the parameter store ("-1" unlimited)    *)
 (*   blkMaxGas consensus max gas in the context of the running block       *)
 (*   params   [noBaseFee, enableHeight, elasticity, denominator,           *)
@@ -40,7 +52,10 @@ CONSTANTS
     BaseMax, GMax, MaxGases, ElasticityMax, DenominatorMax, MinGasPrices,
     \* block sequences (Spec / SimSpec)
     InitBases, InitMaxGases, ParamSets, Gases, Useds, SetMaxGases, SetBases,
-    MaxAnte, MaxBlocks, MaxSets, MaxLen
+    MaxAnte, MaxBlocks, MaxSets, MaxBounds, MaxLen,
+    \* named deviations of the as-built machine (none known; "import-drops-gas-figure" is the
+    \* hypothetical one of the non-vacuity witness FeeMarket_import_witness.cfg)
+    Defects
 
 Uint64Max == "18446744073709551615"
 TwoTo64   == "18446744073709551616"
@@ -179,6 +194,14 @@ BeginSpeaks(a) == CalcSpeaks(a) /\ Storable(a)
 
 EndBlockInDomain(s, used) == PGasDomain(s.tgw) /\ PGasDomain(used)
 
+\* node operations that may happen between two blocks of a sequence
+\*   restart        a new application object is opened on the same database
+\*   reinit         the module's exported genesis is fed to its InitGenesis
+\*   export_import  the application's exported genesis initialises a fresh application
+\* args.commit (reinit, export_import): FALSE = the ABCI order InitChain, BeginBlock (the first
+\* Commit comes after the first block), TRUE = a Commit between InitChain and BeginBlock
+Boundaries == {"restart", "reinit", "export_import"}
+
 StepOK(e, s, t) ==
     CASE e.ev = "begin_block" ->
             \* the base fee of block h is the function of the previous base fee and the previous
@@ -196,6 +219,10 @@ StepOK(e, s, t) ==
       [] e.ev = "commit" ->
             \* the base fee and the gas figure are carried to the next block unchanged
             /\ t.baseFee = s.baseFee /\ t.bgw = s.bgw /\ t.params = s.params /\ t.maxGas = s.maxGas
+      [] e.ev \in Boundaries ->
+            \* node operations between two blocks: what the next base fee is computed from is
+            \* carried unchanged (silent when the operation itself fails)
+            e.ok => /\ t.baseFee = s.baseFee /\ t.bgw = s.bgw /\ t.params = s.params /\ t.maxGas = s.maxGas
       [] e.ev \in {"set_params", "set_max_gas", "init"} -> TRUE      \* governance: outside the statement
       [] OTHER -> FALSE
 
@@ -204,6 +231,51 @@ StepOK(e, s, t) ==
 FloorKept(e, s, t) ==
     (e.ev = "begin_block" /\ e.ok /\ BeginSpeaks(ArgsOfState(s, e.args.height))
        /\ GeDec(s.baseFee, s.params.minGasPrice)) => BigLE(DecFloor(s.params.minGasPrice), t.baseFee)
+
+---------------------------------------------------------------------------
+(* P over histories.  The ghost gh is computed from what was RECORDED (the base fee each     *)
+(* block ran with, the gas its transactions declared, the gas it used), never from the        *)
+(* stores the code reads at the next block:                                                  *)
+(*   sum, clean   gas declared by the running block's accepted transactions; clean = the     *)
+(*                parameters were not changed inside the block                               *)
+(*   base         base fee of the last block (or set by governance since)                    *)
+(*   fig, known   gas figure of the last ended block as the statement defines it             *)
+(*   after        what happened since the last block ended (for the violation class)         *)
+
+GhostInit(s) == [sum |-> "0", clean |-> FALSE, base |-> s.baseFee, fig |-> s.bgw, known |-> TRUE, after |-> "init"]
+
+GhostFigureSpeaks(gh, e, s) ==
+    gh.clean /\ PEnabled(s.params, s.height) /\ PGasDomain(gh.sum) /\ PGasDomain(e.args.used)
+
+GhostNext(gh, e, s, t) ==
+    CASE e.ev = "begin_block" -> [gh EXCEPT !.sum = "0", !.clean = e.ok, !.base = t.baseFee, !.known = FALSE, !.after = "-"]
+      [] e.ev = "ante"        -> IF e.ok THEN [gh EXCEPT !.sum = BigAdd(@, e.args.gas)] ELSE gh
+      [] e.ev = "set_params"  -> [gh EXCEPT !.clean = FALSE, !.base = t.baseFee]
+      [] e.ev = "end_block"   ->
+            \* where the statement is silent about the figure the history is re-synchronised on the store
+            [gh EXCEPT !.known = e.ok,
+                       !.fig = IF GhostFigureSpeaks(gh, e, s)
+                               THEN PGasFigure(gh.sum, s.params.minGasMultiplier, e.args.used) ELSE t.bgw]
+      [] e.ev \in Boundaries \cup {"commit"} -> IF e.ok THEN [gh EXCEPT !.after = e.ev] ELSE gh
+      [] OTHER -> gh
+
+\* the block-level statement: the gas figure is max(sum of the gas the block's transactions
+\* declared x multiplier, gas used) - the sum is taken from the ante arguments, not from the
+\* transient store
+BlockFigureOK(gh, e, s, t) ==
+    (e.ev = "end_block" /\ GhostFigureSpeaks(gh, e, s))
+        => BigEq(t.bgw, PGasFigure(gh.sum, s.params.minGasMultiplier, e.args.used))
+
+\* the sequence-level statement: the base fee of block h is the function of the previous
+\* block's base fee and gas figure, as if nothing had happened between the two blocks
+SeqArgs(gh, s, h) == [ArgsOfState(s, h) EXCEPT !.base = gh.base, !.g = gh.fig]
+SeqOK(gh, e, s, t) ==
+    (e.ev = "begin_block" /\ gh.known) =>
+        LET a == SeqArgs(gh, s, e.args.height) IN
+        BeginSpeaks(a) => (e.ok /\ CalcOK(a, Val(t.baseFee)))
+SeqClass(gh, e, s) == CalcClass(SeqArgs(gh, s, e.args.height)) \o ",after=" \o gh.after
+
+FigClass(s) == IF BigIsZero(s.bgw) THEN "fig=0" ELSE "fig>0"
 
 StepClass(e, s) ==
     CASE e.ev = "begin_block" ->
@@ -216,13 +288,16 @@ StepClass(e, s) ==
                  THEN "used>wanted*mult" ELSE "wanted*mult>=used"
       [] e.ev = "ante" -> IF ~PEnabled(s.params, s.height) THEN "silent:disabled"
                           ELSE IF ~PGasDomain(BigAdd(s.tgw, e.args.gas)) THEN "silent:gas>int64" ELSE "enabled"
+      [] e.ev = "restart" -> FigClass(s)
+      [] e.ev \in {"reinit", "export_import"} ->
+            (IF e.args.commit THEN "committed," ELSE "abci-order,") \o FigClass(s)
       [] OTHER -> "-"
 
 ---------------------------------------------------------------------------
 (* M: the as-built machine for block sequences                              *)
 
-VARIABLES st, hist, bnd
-vars == <<st, hist, bnd>>
+VARIABLES st, hist, bnd, gh
+vars == <<st, hist, bnd, gh>>
 
 \* types.BlockGasLimit(ctx): the limit of the block gas meter; baseapp installs a finite meter
 \* only when max gas > 0 and the infinite meter of this SDK fork reports MaxUint64
@@ -231,6 +306,16 @@ CodeBlockGasLimit(blkMaxGas) == IF BigLT("0", blkMaxGas) THEN blkMaxGas ELSE Uin
 ParamsValid(p, base) ==
     /\ ~BigIsZero(p.denominator) /\ BigLE("0", base) /\ p.enableHeight >= 0
     /\ BigLE("0", p.minGasMultiplier) /\ BigLE(p.minGasMultiplier, One18) /\ BigLE("0", p.minGasPrice)
+
+\* x/feemarket ExportGenesis: the parameters (the base fee is one of them) and the block gas
+MGenesis(s) == [params |-> s.params, baseFee |-> s.baseFee, blockGas |-> s.bgw]
+\* x/feemarket InitGenesis on a store that knows nothing: SetParams, SetBlockGasWanted; the
+\* transient store is not written.  Uncommitted (ABCI order) the state stays in the deliver
+\* state of the first block: phase "imported"
+MImport(s, gs, commit) ==
+    [s EXCEPT !.params = gs.params, !.baseFee = gs.baseFee,
+              !.bgw = IF "import-drops-gas-figure" \in Defects THEN "0" ELSE gs.blockGas,
+              !.tgw = "0", !.phase = IF commit THEN "idle" ELSE "imported"]
 
 MResult(s, ev, args) ==
     CASE ev = "begin_block" ->
@@ -263,11 +348,20 @@ MResult(s, ev, args) ==
             [ok |-> ok, post |-> IF ok THEN [s EXCEPT !.params = args.params, !.baseFee = args.baseFee] ELSE s]
       [] ev = "set_max_gas" ->
             [ok |-> TRUE, post |-> [s EXCEPT !.maxGas = args.maxGas]]
+      [] ev = "restart" ->
+            \* everything the fee market reads between blocks is in the committed stores
+            [ok |-> TRUE, post |-> s]
+      [] ev = "reinit" ->
+            [ok |-> TRUE, post |-> MImport(s, MGenesis(s), args.commit)]
+      [] ev = "export_import" ->
+            \* the consensus parameters travel in the exported genesis document
+            [ok |-> TRUE, post |-> MImport(s, MGenesis(s), args.commit)]
 
 Do(ev, args) ==
     LET r == MResult(st, ev, args) IN
     /\ st' = r.post
     /\ hist' = Append(hist, [ev |-> ev, args |-> args, ok |-> r.ok])
+    /\ gh' = GhostNext(gh, [ev |-> ev, args |-> args, ok |-> r.ok], st, r.post)
 
 InitState(b, w, mg, p) ==
     [baseFee |-> b, bgw |-> w, tgw |-> "0", height |-> 0, phase |-> "idle",
@@ -277,13 +371,14 @@ Init ==
     \E b \in InitBases, mg \in InitMaxGases, p \in ParamSets :
         /\ st = InitState(b, "0", mg, p)
         /\ hist = <<[ev |-> "init", args |-> [baseFee |-> b, bgw |-> "0", maxGas |-> mg, params |-> p], ok |-> TRUE]>>
-        /\ bnd = [antes |-> 0, blocks |-> 0, sets |-> 0]
+        /\ bnd = [antes |-> 0, blocks |-> 0, sets |-> 0, bounds |-> 0]
+        /\ gh = GhostInit(st)
 
 \* a panicking BeginBlock halts the chain
 Halted == hist[Len(hist)].ev = "begin_block" /\ ~hist[Len(hist)].ok
 
 BeginBlock ==
-    /\ st.phase = "idle" /\ bnd.blocks < MaxBlocks
+    /\ st.phase \in {"idle", "imported"} /\ bnd.blocks < MaxBlocks
     /\ Do("begin_block", [height |-> st.height + 1])
     /\ bnd' = [bnd EXCEPT !.blocks = @ + 1, !.antes = 0]
 AnteGasWanted(g) ==
@@ -307,9 +402,25 @@ SetMaxGas(m) ==
     /\ Do("set_max_gas", [maxGas |-> m])
     /\ bnd' = [bnd EXCEPT !.sets = @ + 1]
 
+\* node operations: between blocks, on committed state only
+Restart ==
+    /\ st.phase = "idle" /\ bnd.bounds < MaxBounds
+    /\ Do("restart", [height |-> st.height])
+    /\ bnd' = [bnd EXCEPT !.bounds = @ + 1]
+Reinit(c) ==
+    /\ st.phase = "idle" /\ bnd.bounds < MaxBounds
+    /\ Do("reinit", [commit |-> c])
+    /\ bnd' = [bnd EXCEPT !.bounds = @ + 1]
+ExportImport(c) ==
+    /\ st.phase = "idle" /\ bnd.bounds < MaxBounds
+    /\ Do("export_import", [commit |-> c])
+    /\ bnd' = [bnd EXCEPT !.bounds = @ + 1]
+
 Next ==
     /\ ~Halted
     /\ \/ BeginBlock
+       \/ Restart
+       \/ \E c \in BOOLEAN : Reinit(c) \/ ExportImport(c)
        \/ \E g \in Gases : AnteGasWanted(g)
        \/ \E u \in Useds : EndBlock(u)
        \/ Commit
@@ -320,12 +431,18 @@ Spec == Init /\ [][Next]_vars
 
 \* every step of the as-built machine has exactly the effect P allows ...
 MStep_P == [][hist' # hist => LET e == hist'[Len(hist')] IN StepOK(e, st, st') /\ FloorKept(e, st, st')]_vars
+\* ... the gas figure is the one of the declared and used gas, and the base fee sequence is the one
+\* the formula gives from the recorded figures, whatever happened between the blocks
+MSeq_P == [][hist' # hist => LET e == hist'[Len(hist')] IN BlockFigureOK(gh, e, st, st') /\ SeqOK(gh, e, st, st')]_vars
 \* ... and the transient counter is the sum of what the block's transactions declared
-MInv_Shape == /\ st.phase \in {"idle", "open", "ended"}
+MInv_Shape == /\ st.phase \in {"idle", "imported", "open", "ended"}
               /\ BigLE("0", st.baseFee) /\ BigLE("0", st.bgw) /\ BigLE("0", st.tgw)
-              /\ (st.phase = "idle" => st.tgw = "0")
+              /\ (st.phase \in {"idle", "imported"} => st.tgw = "0")
+\* on the as-built machine the recorded history and the stores agree between blocks
+MInv_Ghost == (st.phase \in {"idle", "imported"} /\ gh.known) => (gh.base = st.baseFee /\ gh.fig = st.bgw)
 
-View == <<st, bnd, Len(hist), hist[Len(hist)].ok>>
+\* (gh.after only labels violation classes)
+View == <<st, bnd, [gh EXCEPT !.after = "-"], Len(hist), hist[Len(hist)].ok>>
 
 ---------------------------------------------------------------------------
 (* The pure input grid: a depth-1 machine whose Next picks one input tuple  *)
@@ -335,7 +452,7 @@ GridArgs(b, g, mg, el, d, m) ==
     [base |-> BigOfInt(b), g |-> BigOfInt(g), maxGas |-> mg, elasticity |-> BigOfInt(el),
      denominator |-> BigOfInt(d), minGasPrice |-> m, noBaseFee |-> FALSE, enableHeight |-> 0, height |-> 5]
 
-CalcInit == st = [kind |-> "none"] /\ hist = <<>> /\ bnd = 0
+CalcInit == st = [kind |-> "none"] /\ hist = <<>> /\ bnd = 0 /\ gh = 0
 \* two levels (pick the parameter row, then g) so that TLC's workers share the product
 CalcNext ==
     /\ \/ /\ st.kind = "none"
@@ -344,7 +461,7 @@ CalcNext ==
                 st' = [kind |-> "row", a |-> GridArgs(b, 0, mg, el, d, m)]
        \/ /\ st.kind = "row"
           /\ \E g \in 0..GMax : st' = [kind |-> "case", a |-> [st.a EXCEPT !.g = BigOfInt(g)]]
-    /\ UNCHANGED <<hist, bnd>>
+    /\ UNCHANGED <<hist, bnd, gh>>
 CalcSpec == CalcInit /\ [][CalcNext]_vars
 
 NextG(a) == [a EXCEPT !.g = BigAdd(a.g, "1")]
@@ -384,6 +501,9 @@ SimNext ==
        \/ AnteGasWanted(RandomElement(Gases))
        \/ (bnd.antes > 0 \/ RandomElement(1..3) = 1) /\ EndBlock(RandomElement({u \in Useds : UsedOK(u)}))
        \/ Commit
+       \/ RandomElement(1..5) = 1 /\ Restart
+       \/ RandomElement(1..5) = 1 /\ Reinit(RandomElement({TRUE, FALSE, FALSE}))
+       \/ RandomElement(1..8) = 1 /\ ExportImport(RandomElement({TRUE, FALSE, FALSE}))
        \/ RandomElement(1..6) = 1 /\ SetParams(RandParams(hist), RandomElement(SetBases \cup {st.baseFee}))
        \/ RandomElement(1..8) = 1 /\ SetMaxGas(RandomElement(SetMaxGases))
 SimSpec == Init /\ [][SimNext \/ Emit]_vars
